@@ -250,13 +250,7 @@ func (g *detGen) form() *Node {
 	case 16:
 		// one closure reachable under different names from several packages; an
 		// error raised through it is reported with a function name
-		pa, pb := g.sym("qa"), g.sym("qb")
-		return Call("progn",
-			Call("set", QS("shared-fn"), L(A("lambda"), L(A("a"), A("b")), A("a"))),
-			Call("in-package", QS(pa)), Call("set", QS("handler"), A("user:shared-fn")),
-			Call("in-package", QS(pb)), Call("set", QS("callback"), A("user:shared-fn")),
-			Call("in-package", QS("user")),
-			PickNode(g.r, L(A(pa+":handler")), L(A(pb+":callback"), I(1)), L(A("shared-fn"))))
+		return g.sharedClosure()
 	case 17:
 		// the same format texts used with the right and with the wrong number of values
 		txt := PickStr(g.r, []string{"{} / {}", "<{}>", "{} {} {} {}", "{0} {1}", "a{}b{}c", "{}"})
@@ -382,6 +376,19 @@ func (g *detGen) form() *Node {
 	}
 }
 
+// sharedClosure: a closure created inside a function of one package (which never
+// binds it), bound under two different names in two other packages, and then
+// called with the wrong number of arguments: the error names the function.
+func (g *detGen) sharedClosure() *Node {
+	pa, pb, fac := g.sym("qa"), g.sym("qb"), g.sym("fac")
+	g.out = append(g.out, Call("progn", Call("in-package", QS(fac)), L(A("defun"), A("mk"), L(), L(A("lambda"), L(A("a"), A("b")), A("a"))), Call("in-package", QS("user"))))
+	return L(A("let"), L(L(A("shf"), L(A(fac+":mk")))),
+		Call("in-package", QS(pa)), Call("set", QS("handler"), A("shf")),
+		Call("in-package", QS(pb)), Call("set", QS("callback"), A("shf")),
+		Call("in-package", QS("user")),
+		PickNode(g.r, Call("funcall", A("shf")), L(A(pa+":handler")), L(A(pb+":callback"), I(1))))
+}
+
 func (g *detGen) program(n int) []*Node {
 	var body []*Node
 	for i := 0; i < n; i++ {
@@ -411,6 +418,9 @@ func (e *detEngine) Gen(r *Rand, tier string) any {
 			L(Call("compose", A("car"), A("cdr")), I(1), I(2)),
 			Call("funcall", Call("s:in", Str("x")), Str("y"), Str("z")),
 			Call("json:dump-string", g.closure())))
+	case 3:
+		fin := g.sharedClosure()
+		c.Forms = append(append(g.out[len(g.out)-1:], c.Forms...), fin)
 	}
 	gn := &detGen{r: r.Fork()}
 	c.Noise = gn.program(r.Range(1, 4))
@@ -513,6 +523,7 @@ func diffTranscript(a, b transcript) (string, string) {
 			}
 		}
 	}
+	a, b = a.normalised(), b.normalised()
 	switch {
 	case a.Result != b.Result:
 		return "result-differs", fmt.Sprintf("%q vs %q", a.Result, b.Result)
